@@ -225,9 +225,14 @@ def inject(src, spec, with_shrink=True):
     for fn in spec['functions']:
         bo, bc = find_function(b, fn['name'])
         loops = find_loops(b, bo, bc)
-        if fn['nloops'] is not None and len(loops) != fn['nloops']:
+        uses_ordinals = any(it.get('ordinal') is not None for it in fn['items'])
+        if fn['nloops'] is not None and len(loops) != fn['nloops'] and uses_ordinals:
+            # loop contracts / ghost statements are keyed by loop ordinal: a different loop count means they would land on the wrong loop
             raise InjectError("R1: function %s has %d loops, contract file expects %d" % (fn['name'], len(loops), fn['nloops']))
         report['functions'][fn['name']] = dict(loops=len(loops), annotated=[])
+        if fn['nloops'] is not None and len(loops) != fn['nloops']:
+            # only entry / regex-anchored items (each anchor must still match exactly once): the loop count is informational
+            report['functions'][fn['name']]['note'] = 'loop count %d differs from the recorded %d (no ordinal-keyed item in this function)' % (len(loops), fn['nloops'])
         for it in fn['items']:
             text = ' '.join(it['text'])
             if it['kind'] == 'ghost' and it['where'] == 'entry':
